@@ -103,6 +103,48 @@ func runECIES(c *vf.Check, g *groups.G, part, parts int) {
 	pub := g.Point().Mul(priv, nil)
 	wrong := alpha.ToScalar(g.Scalar(), alpha.Rand("c16-ecies-wrong", g.Order), g.Order)
 	pl := g.Group.PointLen()
+	if part == 0 {
+		// a family of 600 round trips (the ephemeral key is fresh each time: encodings with rare shapes - leading zero
+		// bytes - occur with probability 2^-7 .. 2^-8 per encryption); the ciphertext length is always the same
+		for blk := 0; blk < 600; blk += 100 {
+			blk := blk
+			id := fmt.Sprintf("ecies %s: round trips %d..%d of a 20-byte message", g.Name, blk, blk+99)
+			var failing []byte // the first ciphertext that failed: a re-run of the case judges that one again
+			c.Case(id, pk, func(x *vf.Ctx) {
+				msg := plaintext(20, 2)
+				want := -1
+				for i := 0; i < 100; i++ {
+					var ct []byte
+					var err error
+					if failing != nil {
+						ct = append([]byte{}, failing...)
+					} else {
+						ct, err = ecies.Encrypt(g.Group, pub, append([]byte{}, msg...), sha256.New)
+					}
+					c.Eval(1)
+					if err != nil {
+						x.Failf(pk+"/encrypt", "%s: Encrypt refused: %v", id, err)
+						return
+					}
+					if want < 0 {
+						want = len(ct)
+					}
+					got, err := ecies.Decrypt(g.Group, priv, append([]byte{}, ct...), sha256.New)
+					if err != nil || !bytes.Equal(got, msg) {
+						failing = append([]byte{}, ct...)
+						x.Failf(pk+"/roundtrip", "%s: a round trip fails (%d-byte ciphertext %x..): %v", id, len(ct), ct[:8], err)
+						return
+					}
+					if len(ct) != pl+20+16 && g.Name != "" && want != len(ct) {
+						failing = append([]byte{}, ct...)
+						x.Failf(pk+"/ciphertext-length", "%s: a ciphertext has %d bytes, the others %d", id, len(ct), want)
+						return
+					}
+				}
+			})
+			c.Count("transitions", 100)
+		}
+	}
 	for li, n := range lengths(c.Thorough()) {
 		if li%parts != part {
 			continue
